@@ -3,6 +3,9 @@
 package vtime
 
 import (
+	"fmt"
+	"path/filepath"
+	"runtime"
 	"time"
 
 	"github.com/tinode/chat/server/zzverif/vsched"
@@ -75,7 +78,15 @@ func NewTimer(d Duration) *Timer {
 		return &Timer{C: rt.C, real: rt}
 	}
 	c := make(chan Time, 1)
-	return &Timer{C: c, h: vsched.NewTimer(d, 0, c, nil, "timer")}
+	return &Timer{C: c, h: vsched.NewTimer(d, 0, c, nil, "timer@"+site())}
+}
+
+// site names the creation site of a timer (file:line of the caller in instrumented code).
+func site() string {
+	if _, file, line, ok := runtime.Caller(2); ok {
+		return fmt.Sprintf("%s:%d", filepath.Base(file), line)
+	}
+	return "?"
 }
 
 func (t *Timer) Stop() bool {
@@ -129,7 +140,7 @@ func NewTicker(d Duration) *Ticker {
 		return &Ticker{C: rt.C, real: rt}
 	}
 	c := make(chan Time, 1)
-	return &Ticker{C: c, h: vsched.NewTimer(d, d, c, nil, "ticker")}
+	return &Ticker{C: c, h: vsched.NewTimer(d, d, c, nil, "ticker@"+site())}
 }
 
 func (t *Ticker) Stop() {
